@@ -3,6 +3,7 @@ package message
 import (
 	"encoding/binary"
 
+	"github.com/free5gc/ike/internal/verifhook"
 	"github.com/pkg/errors"
 )
 
@@ -54,6 +55,7 @@ func (configuration *Configuration) Unmarshal(b []byte) error {
 		configurationAttributeData := b[4:]
 
 		for len(configurationAttributeData) > 0 {
+			verifhook.At("message.cp.attribute", len(configurationAttributeData))
 			// bounds checking
 			if len(configurationAttributeData) < 4 {
 				return errors.Errorf("ConfigurationAttribute: No sufficient bytes to decode next configuration attribute")
